@@ -103,7 +103,7 @@ PROPS["C17"] = {
     "proved_scope": "init_stack_program_start: memory invariants of the result (frame, strings, image disjoint), every string in its own fresh "
                     "NUL-terminated area in order, slot arithmetic, RSP 16-byte aligned (assertion unreachable), stack_top = RSP, space below RSP "
                     "in [len, len+48]",
-    "sampled_only_scope": "that the POP sequence returns argc, argv pointers, 0, envp pointers, 0 (executed by the correspondence run on both sides)",
+    "sampled_only_scope": "that the loads of the POP sequence succeed (readable stack memory); string bytes surviving the later frame writes",
     "assumptions": ["length + frame size < 2^64 and allocation succeeds"],
 }
 PROPS["C18"] = {
@@ -290,7 +290,7 @@ for _pid, _asp, _extra in [
     ("C02", {"flags"}, {}),
     ("C03", {"rip", "regs", "rsp", "mem", "flags", "outcome"}, {"stack_shift": True}),
     ("C04", {"regs", "rsp", "rip", "mem", "outcome", "flags"}, {"stack_shift": True}),
-    ("C05", {"regs", "mem", "outcome"}, {}),
+    ("C05", {"regs", "mem", "outcome", "rip", "rsp"}, {"stack_shift": True}),
     ("C06", {"outcome"}, {}),
 ]:
     PROPS[_pid] = {
